@@ -1,1 +1,1174 @@
-import GeoModel
+/-
+  Property C08 — options never change meaning (relational, on the AST model GeoModel.Json).
+
+  * index options (`indexChildren`, `indexGeometry`, `indexKind`): same acceptance, same error,
+    objects equal up to index bytes (`ObsEq`), hence same written text and same attributes;
+  * representation options (`allowSimplePoints`, `allowRects`): same written text;
+  * `requireValid` is a filter.
+  Predicate answers (contains / intersects) of `ObsEq` objects need index-independence of the
+  geometry layer (C04 / C01), proved elsewhere.
+-/
+import GeoProofs.ParseLemmas
+namespace Geo
+
+/-- two option sets that differ only in the index-related fields -/
+def SameButIndex (o o' : POpts) : Prop :=
+  o.requireValid = o'.requireValid ∧ o.allowSimplePoints = o'.allowSimplePoints ∧
+  o.disableCircle = o'.disableCircle ∧ o.allowRects = o'.allowRects
+
+/-- series equal except for their `index` field -/
+def Series.EqUpToIndex (s t : Series) : Prop :=
+  s.pts = t.pts ∧ s.closed = t.closed ∧ s.convex = t.convex ∧ s.clockwise = t.clockwise ∧ s.rect = t.rect
+
+def Ring.ObsEq : Ring → Ring → Prop
+  | .ser s, .ser t => s.EqUpToIndex t
+  | .bx a, .bx b => a = b
+  | _, _ => False
+
+def Poly.ObsEq (p q : Poly) : Prop :=
+  (match p.ext, q.ext with
+   | none, none => True
+   | some a, some b => a.ObsEq b
+   | _, _ => False) ∧ Forall2 Ring.ObsEq p.holes q.holes
+
+mutual
+/-- observational equality of objects up to index bytes: same constructor, same
+    positions / extras / children; series equal except for their `index` field; collections
+    equal except for `indexed` -/
+inductive ObsEq : Obj → Obj → Prop
+  | point (pos : Pos) (ex : Option Extra) : ObsEq (.point pos ex) (.point pos ex)
+  | spoint (pos : Pos) : ObsEq (.spoint pos) (.spoint pos)
+  | lineString (l l' : Line) (poss : List Pos) (ex : Option Extra) (h : Series.EqUpToIndex l l') :
+      ObsEq (.lineString l poss ex) (.lineString l' poss ex)
+  | polygon (p p' : Poly) (rings : List (List Pos)) (ex : Option Extra) (h : p.ObsEq p') :
+      ObsEq (.polygon p rings ex) (.polygon p' rings ex)
+  | rectO (b : Box) (lo hi : Pos) : ObsEq (.rectO b lo hi) (.rectO b lo hi)
+  | coll (kind : CollKind) (cs cs' : List Obj) (ex : Option Extra) (idx idx' : Bool)
+      (h : ObsEqL cs cs') : ObsEq (.coll kind cs ex idx) (.coll kind cs' ex idx')
+  | feature (b b' : Obj) (ex : Option Extra) (h : ObsEq b b') : ObsEq (.feature b ex) (.feature b' ex)
+  | circle (c : Pos) (r : String) : ObsEq (.circle c r) (.circle c r)
+inductive ObsEqL : List Obj → List Obj → Prop
+  | nil : ObsEqL [] []
+  | cons (c c' : Obj) (cs cs' : List Obj) (h : ObsEq c c') (hs : ObsEqL cs cs') :
+      ObsEqL (c :: cs) (c' :: cs')
+end
+
+/-! ### attributes do not depend on the index -/
+
+theorem Ring.ObsEq.attrs {a b : Ring} (h : a.ObsEq b) :
+    a.empty = b.empty ∧ a.rect = b.rect ∧ a.valid = b.valid ∧ a.numPoints = b.numPoints := by
+  cases a <;> cases b <;> simp only [Ring.ObsEq] at h
+  · obtain ⟨h1, h2, _, _, h5⟩ := h
+    simp only [Ring.empty, Ring.rect, Ring.valid, Ring.numPoints, Series.empty, Series.valid,
+      Series.numPoints, h1, h2, h5, and_self]
+  · subst h; exact ⟨rfl, rfl, rfl, rfl⟩
+
+theorem forall2_ring_valid {l l' : List Ring} (h : Forall2 Ring.ObsEq l l') :
+    l.all Ring.valid = l'.all Ring.valid ∧
+    (l.map Ring.numPoints).sum = (l'.map Ring.numPoints).sum := by
+  induction h with
+  | nil => exact ⟨rfl, rfl⟩
+  | cons hr _ ih =>
+    simp only [List.all_cons, List.map_cons, List.sum_cons, hr.attrs.2.2.1, hr.attrs.2.2.2, ih.1, ih.2,
+      and_self]
+
+theorem Poly.ObsEq.attrs {p q : Poly} (h : p.ObsEq q) :
+    p.empty = q.empty ∧ p.rect = q.rect ∧ p.valid = q.valid ∧
+    (match p.ext with | none => 0 | some e => e.numPoints + (p.holes.map Ring.numPoints).sum) =
+    (match q.ext with | none => 0 | some e => e.numPoints + (q.holes.map Ring.numPoints).sum) := by
+  obtain ⟨h1, h2⟩ := h
+  have hh := forall2_ring_valid h2
+  cases hp : p.ext with
+  | none =>
+    cases hq : q.ext with
+    | none => simp [Poly.empty, Poly.rect, Poly.valid, hp, hq]
+    | some b => rw [hp, hq] at h1; cases h1
+  | some a =>
+    cases hq : q.ext with
+    | none => rw [hp, hq] at h1; cases h1
+    | some b =>
+      rw [hp, hq] at h1
+      have := Ring.ObsEq.attrs h1
+      simp only [Poly.empty, Poly.rect, Poly.valid, hp, hq, this.1, this.2.1, this.2.2.1, this.2.2.2,
+        hh.1, hh.2, and_self]
+
+theorem ObsEqL.length_eq {cs cs' : List Obj} (h : ObsEqL cs cs') : cs.length = cs'.length := by
+  induction cs generalizing cs' with
+  | nil => cases h; rfl
+  | cons c cs ih =>
+    cases h with
+    | cons _ c' _ cs'' _ hs => simp [ih hs]
+
+mutual
+theorem obsEq_empty : ∀ {x x' : Obj}, ObsEq x x' → x.empty = x'.empty
+  | _, _, .point _ _ => rfl
+  | _, _, .spoint _ => rfl
+  | _, _, .lineString l l' _ _ h => by
+    simp only [Obj.empty, Series.empty, h.1, h.2.1]
+  | _, _, .polygon p p' _ _ h => by
+    simp only [Obj.empty, h.attrs.1]
+  | _, _, .rectO _ _ _ => rfl
+  | _, _, .coll _ cs cs' _ _ _ h => by
+    simp only [Obj.empty]
+    exact obsEqL_allEmpty h
+  | _, _, .feature b b' _ h => by
+    simp only [Obj.empty]
+    exact obsEq_empty h
+  | _, _, .circle _ _ => rfl
+theorem obsEqL_allEmpty : ∀ {cs cs' : List Obj}, ObsEqL cs cs' → Obj.allEmpty cs = Obj.allEmpty cs'
+  | _, _, .nil => rfl
+  | _, _, .cons c c' cs cs' h hs => by
+    simp only [Obj.allEmpty, obsEq_empty h, obsEqL_allEmpty hs]
+end
+
+mutual
+theorem obsEq_rect : ∀ {x x' : Obj}, ObsEq x x' → x.rect = x'.rect
+  | _, _, .point _ _ => rfl
+  | _, _, .spoint _ => rfl
+  | _, _, .lineString l l' _ _ h => by
+    simp only [Obj.rect, h.2.2.2.2]
+  | _, _, .polygon p p' _ _ h => by
+    simp only [Obj.rect, h.attrs.2.1]
+  | _, _, .rectO _ _ _ => rfl
+  | _, _, .coll _ cs cs' _ _ _ h => by
+    simp only [Obj.rect, h.length_eq]
+    rw [obsEqL_collRect h]
+  | _, _, .feature b b' _ h => by
+    simp only [Obj.rect]
+    exact obsEq_rect h
+  | _, _, .circle _ _ => rfl
+theorem obsEqL_collRect : ∀ {cs cs' : List Obj}, ObsEqL cs cs' → ∀ (s : Bool) (acc : Option Box),
+    Obj.collRect cs s acc = Obj.collRect cs' s acc
+  | _, _, .nil, _, _ => rfl
+  | _, _, .cons c c' cs cs' h hs, s, acc => by
+    simp only [Obj.collRect, obsEq_empty h, obsEq_rect h]
+    split
+    · exact obsEqL_collRect hs s acc
+    · split
+      · exact obsEqL_collRect hs s _
+      · exact obsEqL_collRect hs s _
+end
+
+mutual
+theorem obsEq_valid : ∀ {x x' : Obj}, ObsEq x x' → x.valid = x'.valid
+  | _, _, .point _ _ => rfl
+  | _, _, .spoint _ => rfl
+  | _, _, .lineString l l' _ _ h => by
+    simp only [Obj.valid, Series.valid, h.1]
+  | _, _, .polygon p p' _ _ h => by
+    simp only [Obj.valid, h.attrs.2.2.1]
+  | _, _, .rectO _ _ _ => rfl
+  | _, _, .coll k cs cs' ex i i' h => by
+    have hr : (Obj.coll k cs ex i).rect = (Obj.coll k cs' ex i').rect := obsEq_rect (.coll k cs cs' ex i i' h)
+    cases k <;> simp only [Obj.valid, hr]
+    · exact obsEqL_allValid h
+    · exact obsEqL_allValid h
+  | _, _, .feature b b' _ h => by
+    simp only [Obj.valid]
+    exact obsEq_valid h
+  | _, _, .circle _ _ => rfl
+theorem obsEqL_allValid : ∀ {cs cs' : List Obj}, ObsEqL cs cs' → Obj.allValid cs = Obj.allValid cs'
+  | _, _, .nil => rfl
+  | _, _, .cons c c' cs cs' h hs => by
+    simp only [Obj.allValid, obsEq_valid h, obsEqL_allValid hs]
+end
+
+mutual
+theorem obsEq_numPoints : ∀ {x x' : Obj}, ObsEq x x' → x.numPoints = x'.numPoints
+  | _, _, .point _ _ => rfl
+  | _, _, .spoint _ => rfl
+  | _, _, .lineString l l' _ _ h => by
+    simp only [Obj.numPoints, Series.numPoints, h.1]
+  | _, _, .polygon p p' _ _ h => by
+    simp only [Obj.numPoints]
+    exact h.attrs.2.2.2
+  | _, _, .rectO _ _ _ => rfl
+  | _, _, .coll _ cs cs' _ _ _ h => by
+    simp only [Obj.numPoints]
+    exact obsEqL_sumPoints h
+  | _, _, .feature b b' _ h => by
+    simp only [Obj.numPoints]
+    exact obsEq_numPoints h
+  | _, _, .circle _ _ => rfl
+theorem obsEqL_sumPoints : ∀ {cs cs' : List Obj}, ObsEqL cs cs' → Obj.sumPoints cs = Obj.sumPoints cs'
+  | _, _, .nil => rfl
+  | _, _, .cons c c' cs cs' h hs => by
+    simp only [Obj.sumPoints, obsEq_numPoints h, obsEqL_sumPoints hs]
+end
+
+theorem obsEq_center {x x' : Obj} (h : ObsEq x x') : x.center = x'.center := by
+  have hr := obsEq_rect h
+  cases h <;> simp only [Obj.center] <;> rw [hr]
+
+/-- rect / valid / empty / numPoints / center do not depend on the index bytes -/
+theorem obsEq_attrs (x x' : Obj) (h : ObsEq x x') :
+    x.empty = x'.empty ∧ x.rect = x'.rect ∧ x.valid = x'.valid ∧ x.numPoints = x'.numPoints ∧
+      x.center = x'.center :=
+  ⟨obsEq_empty h, obsEq_rect h, obsEq_valid h, obsEq_numPoints h, obsEq_center h⟩
+
+end Geo
+
+namespace Geo
+
+/-! ### the written text does not depend on the index -/
+
+theorem obsEq_writeCoords {x x' : Obj} (h : ObsEq x x') : writeCoords x = writeCoords x' := by
+  cases h with
+  | polygon p p' rings ex h => simp only [writeCoords, h.attrs.1]
+  | lineString => simp only [writeCoords]
+  | coll => simp only [writeCoords]
+  | feature => simp only [writeCoords]
+  | _ => rfl
+
+theorem obsEqL_writeAllCoords : ∀ {cs cs' : List Obj}, ObsEqL cs cs' →
+    writeAllCoords cs = writeAllCoords cs'
+  | _, _, .nil => rfl
+  | _, _, .cons c c' cs cs' h hs => by
+    simp only [writeAllCoords, obsEq_writeCoords h, obsEqL_writeAllCoords hs]
+
+mutual
+theorem obsEq_write' : ∀ {x x' : Obj}, ObsEq x x' → write x = write x'
+  | _, _, .point _ _ => rfl
+  | _, _, .spoint _ => rfl
+  | _, _, .lineString l l' _ _ h => by simp only [write]
+  | _, _, .polygon p p' _ _ h => by simp only [write, h.attrs.1]
+  | _, _, .rectO _ _ _ => rfl
+  | _, _, .coll k cs cs' ex i i' h => by
+    have h1 := obsEqL_writeAll h
+    have h2 := obsEqL_writeAllCoords h
+    cases k <;> simp only [write, h1, h2]
+  | _, _, .feature b b' _ h => by
+    simp only [write, obsEq_write' h]
+  | _, _, .circle _ _ => rfl
+theorem obsEqL_writeAll : ∀ {cs cs' : List Obj}, ObsEqL cs cs' → writeAll cs = writeAll cs'
+  | _, _, .nil => rfl
+  | _, _, .cons c c' cs cs' h hs => by
+    simp only [writeAll, obsEq_write' h, obsEqL_writeAll hs]
+end
+
+theorem obsEq_write (x x' : Obj) (h : ObsEq x x') : write x = write x' := obsEq_write' h
+
+end Geo
+
+namespace Geo
+
+theorem Ring.ObsEq.refl : ∀ (a : Ring), a.ObsEq a
+  | .ser _ => ⟨rfl, rfl, rfl, rfl, rfl⟩
+  | .bx _ => rfl
+
+theorem forall2_refl {α : Type} {R : α → α → Prop} (h : ∀ a, R a a) : ∀ (l : List α), Forall2 R l l
+  | [] => .nil
+  | a :: l => .cons (h a) (forall2_refl h l)
+
+theorem Poly.ObsEq.refl (p : Poly) : p.ObsEq p := by
+  refine ⟨?_, forall2_refl Ring.ObsEq.refl _⟩
+  cases p.ext with
+  | none => trivial
+  | some a => exact Ring.ObsEq.refl a
+
+end Geo
+
+namespace Geo
+
+/-! ### index options change nothing observable -/
+
+mutual
+theorem obsEq_refl : ∀ (x : Obj), ObsEq x x
+  | .point _ _ => .point _ _
+  | .spoint _ => .spoint _
+  | .lineString _ _ _ => .lineString _ _ _ _ ⟨rfl, rfl, rfl, rfl, rfl⟩
+  | .polygon p _ _ => .polygon _ _ _ _ (Poly.ObsEq.refl p)
+  | .rectO _ _ _ => .rectO _ _ _
+  | .coll _ cs _ _ => .coll _ _ _ _ _ _ (obsEqL_refl cs)
+  | .feature b _ => .feature _ _ _ (obsEq_refl b)
+  | .circle _ _ => .circle _ _
+theorem obsEqL_refl : ∀ (cs : List Obj), ObsEqL cs cs
+  | [] => .nil
+  | c :: cs => .cons _ _ _ _ (obsEq_refl c) (obsEqL_refl cs)
+end
+
+end Geo
+
+namespace Geo
+
+/-- two results agree: the same error, or objects equal up to index bytes -/
+def ResEq : Except PErr Obj → Except PErr Obj → Prop
+  | .ok x, .ok x' => ObsEq x x'
+  | .error e, .error e' => e = e'
+  | _, _ => False
+
+def ResEqL : Except PErr (List Obj) → Except PErr (List Obj) → Prop
+  | .ok xs, .ok xs' => ObsEqL xs xs'
+  | .error e, .error e' => e = e'
+  | _, _ => False
+
+theorem ResEq.of_eq {r r' : Except PErr Obj} (h : r = r') : ResEq r r' := by
+  subst h
+  cases r with
+  | error e => exact rfl
+  | ok x => exact obsEq_refl x
+
+theorem mapM_resEq {f g : JVal → Except PErr Obj} : ∀ (l : List JVal),
+    (∀ x ∈ l, ResEq (f x) (g x)) → ResEqL (l.mapM f) (l.mapM g)
+  | [], _ => by rw [mapM_except_nil, mapM_except_nil]; exact .nil
+  | x :: xs, h => by
+    rw [mapM_except_cons, mapM_except_cons]
+    have hx := h x List.mem_cons_self
+    have hxs := mapM_resEq xs (fun z hz => h z (List.mem_cons_of_mem _ hz))
+    cases hf : f x with
+    | error e =>
+      cases hg : g x with
+      | error e' => rw [hf, hg] at hx; exact hx
+      | ok y' => rw [hf, hg] at hx; exact hx.elim
+    | ok y =>
+      cases hg : g x with
+      | error e' => rw [hf, hg] at hx; exact hx.elim
+      | ok y' =>
+        rw [hf, hg] at hx
+        cases hfs : xs.mapM f with
+        | error e =>
+          cases hgs : xs.mapM g with
+          | error e' => rw [hfs, hgs] at hxs; exact hxs
+          | ok ys' => rw [hfs, hgs] at hxs; exact hxs.elim
+        | ok ys =>
+          cases hgs : xs.mapM g with
+          | error e' => rw [hfs, hgs] at hxs; exact hxs.elim
+          | ok ys' =>
+            rw [hfs, hgs] at hxs
+            exact .cons _ _ _ _ hx hxs
+
+theorem mkSeries_eqUpToIndex (pts : Array Pt) (closed : Bool) (k k' : IndexKind) (m m' : Nat) :
+    Series.EqUpToIndex (mkSeries pts closed k m) (mkSeries pts closed k' m') :=
+  ⟨rfl, rfl, rfl, rfl, rfl⟩
+
+theorem mkPoly_obsEq (o o' : POpts) (rings : List (List Pos)) : (mkPoly o rings).ObsEq (mkPoly o' rings) := by
+  unfold mkPoly
+  cases rings with
+  | nil => exact ⟨trivial, .nil⟩
+  | cons e hs =>
+    refine ⟨mkSeries_eqUpToIndex _ _ _ _ _ _, ?_⟩
+    simp only
+    induction hs with
+    | nil => exact .nil
+    | cons h hs ih => exact .cons (mkSeries_eqUpToIndex _ _ _ _ _ _) ih
+
+theorem polyObj_obsEq {o o' : POpts} (h : SameButIndex o o') (rings : List (List Pos)) (ex : Option Extra) :
+    ObsEq (polyObj o rings ex) (polyObj o' rings ex) := by
+  unfold polyObj
+  rw [h.2.2.2]
+  split
+  · split
+    · split
+      · exact .rectO _ _ _
+      · exact .polygon _ _ _ _ (mkPoly_obsEq o o' _)
+    · exact .polygon _ _ _ _ (mkPoly_obsEq o o' _)
+  · exact .polygon _ _ _ _ (mkPoly_obsEq o o' _)
+
+theorem mkColl_obsEq (o o' : POpts) (kind : CollKind) {cs cs' : List Obj} (ex : Option Extra)
+    (h : ObsEqL cs cs') : ObsEq (mkColl o kind cs ex) (mkColl o' kind cs' ex) :=
+  .coll _ _ _ _ _ _ h
+
+theorem pointCase_index {o o' : POpts} (h : SameButIndex o o') (k : Keys) :
+    pointCase o k = pointCase o' k := by
+  unfold pointCase
+  rw [h.1, h.2.1]
+
+theorem lineCase_index {o o' : POpts} (h : SameButIndex o o') (k : Keys) :
+    ResEq (lineCase o k) (lineCase o' k) := by
+  unfold lineCase
+  split
+  · exact rfl
+  · split
+    · exact rfl
+    · rename_i ps ex _
+      split
+      · exact rfl
+      · have hob : ObsEq (.lineString (mkLine o ps) ps (withMembers ex k))
+            (.lineString (mkLine o' ps) ps (withMembers ex k)) :=
+          .lineString _ _ _ _ (mkSeries_eqUpToIndex _ _ _ _ _ _)
+        simp only [← h.1, obsEq_valid hob]
+        split
+        · exact rfl
+        · exact hob
+
+theorem polyCase_index {o o' : POpts} (h : SameButIndex o o') (k : Keys) :
+    ResEq (polyCase o k) (polyCase o' k) := by
+  unfold polyCase
+  split
+  · exact rfl
+  · split
+    · exact rfl
+    · rename_i rings ex _
+      split
+      · exact rfl
+      · have hob := polyObj_obsEq h rings (withMembers ex k)
+        simp only [← h.1, obsEq_valid hob]
+        split
+        · exact rfl
+        · exact hob
+
+theorem multiPointCase_index {o o' : POpts} (h : SameButIndex o o') (k : Keys) :
+    ResEq (multiPointCase o k) (multiPointCase o' k) := by
+  unfold multiPointCase
+  split
+  · exact rfl
+  · split
+    · exact rfl
+    · simp only [← h.1]
+      split
+      · exact rfl
+      · exact mkColl_obsEq o o' _ _ (obsEqL_refl _)
+
+theorem lineChild_index (o o' : POpts) (v : JVal) : ResEq (lineChild o v) (lineChild o' v) := by
+  rw [lineChild_eq, lineChild_eq]
+  split
+  · exact rfl
+  · split
+    · exact rfl
+    · exact .lineString _ _ _ _ (mkSeries_eqUpToIndex _ _ _ _ _ _)
+
+theorem polyChild_index (o o' : POpts) (v : JVal) : ResEq (polyChild o v) (polyChild o' v) := by
+  rw [polyChild_eq, polyChild_eq]
+  split
+  · exact rfl
+  · split
+    · exact rfl
+    · exact .polygon _ _ _ _ (mkPoly_obsEq o o' _)
+
+theorem multiLineCase_index {o o' : POpts} (h : SameButIndex o o') (k : Keys) :
+    ResEq (multiLineCase o k) (multiLineCase o' k) := by
+  unfold multiLineCase
+  split
+  · exact rfl
+  · rename_i rc _
+    have hm := mapM_resEq (f := lineChild o) (g := lineChild o') rc.elems (fun x _ => lineChild_index o o' x)
+    cases h1 : rc.elems.mapM (lineChild o) with
+    | error e =>
+      cases h2 : rc.elems.mapM (lineChild o') with
+      | error e' => rw [h1, h2] at hm; exact hm
+      | ok cs' => rw [h1, h2] at hm; exact hm.elim
+    | ok cs =>
+      cases h2 : rc.elems.mapM (lineChild o') with
+      | error e' => rw [h1, h2] at hm; exact hm.elim
+      | ok cs' =>
+        rw [h1, h2] at hm
+        have hob := mkColl_obsEq o o' .multiLineString (withMembers none k) hm
+        simp only [← h.1, obsEq_valid hob]
+        split
+        · exact rfl
+        · exact hob
+
+theorem multiPolyCase_index {o o' : POpts} (h : SameButIndex o o') (k : Keys) :
+    ResEq (multiPolyCase o k) (multiPolyCase o' k) := by
+  unfold multiPolyCase
+  split
+  · exact rfl
+  · rename_i rc _
+    have hm := mapM_resEq (f := polyChild o) (g := polyChild o') rc.elems (fun x _ => polyChild_index o o' x)
+    cases h1 : rc.elems.mapM (polyChild o) with
+    | error e =>
+      cases h2 : rc.elems.mapM (polyChild o') with
+      | error e' => rw [h1, h2] at hm; exact hm
+      | ok cs' => rw [h1, h2] at hm; exact hm.elim
+    | ok cs =>
+      cases h2 : rc.elems.mapM (polyChild o') with
+      | error e' => rw [h1, h2] at hm; exact hm.elim
+      | ok cs' =>
+        rw [h1, h2] at hm
+        have hob := mkColl_obsEq o o' .multiPolygon (withMembers none k) hm
+        simp only [← h.1, obsEq_valid hob]
+        split
+        · exact rfl
+        · exact hob
+
+theorem obsEq_centreOf {b b' : Obj} (h : ObsEq b b') : centreOf b = centreOf b' := by
+  cases h <;> rfl
+
+theorem featureObj_index {o o' : POpts} (h : SameButIndex o o') (k : Keys) {b b' : Obj}
+    (hb : ObsEq b b') : ResEq (featureObj o k b) (featureObj o' k b') := by
+  unfold featureObj
+  rw [← obsEq_centreOf hb, ← h.2.2.1]
+  split
+  · split
+    · split
+      · exact rfl
+      · split
+        · exact .circle _ _
+        · split
+          · exact .circle _ _
+          · exact rfl
+    · exact .feature _ _ _ hb
+  · exact .feature _ _ _ hb
+
+theorem collCase_index {o o' : POpts} (kind : CollKind) (ex : Option Extra) (a b : PErr)
+    (v : Option JVal) {pl pl' : List JVal → Except PErr (List Obj)}
+    (hpl : ∀ items, ResEqL (pl items) (pl' items)) :
+    ResEq
+      (match reqArray v a b with
+        | .error e => .error e
+        | .ok (.arr items) =>
+          match pl items with
+          | .error e => .error e
+          | .ok children => .ok (mkColl o kind children ex)
+        | .ok _ => .error b)
+      (match reqArray v a b with
+        | .error e => .error e
+        | .ok (.arr items) =>
+          match pl' items with
+          | .error e => .error e
+          | .ok children => .ok (mkColl o' kind children ex)
+        | .ok _ => .error b) := by
+  split
+  · exact rfl
+  · rename_i items _
+    have := hpl items
+    cases h1 : pl items with
+    | error e =>
+      cases h2 : pl' items with
+      | error e' => rw [h1, h2] at this; exact this
+      | ok cs' => rw [h1, h2] at this; exact this.elim
+    | ok cs =>
+      cases h2 : pl' items with
+      | error e' => rw [h1, h2] at this; exact this.elim
+      | ok cs' =>
+        rw [h1, h2] at this
+        exact mkColl_obsEq o o' kind ex this
+  · exact rfl
+
+theorem index_opts_resEq {o o' : POpts} (h : SameButIndex o o') :
+    ∀ (n : Nat) (v : JVal), ResEq (parse o n v) (parse o' n v)
+  | 0, v => by rw [parse_zero, parse_zero]; exact rfl
+  | n+1, v => by
+    cases v with
+    | obj ms =>
+      rw [parse_succ_obj, parse_succ_obj]
+      have hL : ∀ items, ResEqL (parseList o n items) (parseList o' n items) := by
+        intro items
+        rw [parseList_eq_mapM, parseList_eq_mapM]
+        exact mapM_resEq items (fun x _ => index_opts_resEq h n x)
+      split
+      · exact rfl
+      · rename_i r ty _
+        unfold parseTyped
+        split
+        · exact .of_eq (pointCase_index h _)
+        · exact lineCase_index h _
+        · exact polyCase_index h _
+        · exact multiPointCase_index h _
+        · exact multiLineCase_index h _
+        · exact multiPolyCase_index h _
+        · exact collCase_index _ _ _ _ _ hL
+        · exact collCase_index _ _ _ _ _ hL
+        · unfold featureCase
+          split
+          · exact rfl
+          · rename_i g _
+            have := index_opts_resEq h n g
+            cases h1 : parse o n g with
+            | error e =>
+              cases h2 : parse o' n g with
+              | error e' => rw [h1, h2] at this; exact this
+              | ok b' => rw [h1, h2] at this; exact this.elim
+            | ok b =>
+              cases h2 : parse o' n g with
+              | error e' => rw [h1, h2] at this; exact this.elim
+              | ok b' =>
+                rw [h1, h2] at this
+                exact featureObj_index h _ this
+        · exact rfl
+      · exact rfl
+    | null => rw [parse_succ_nonobj o n _ (by intro ms h; cases h), parse_succ_nonobj o' n _ (by intro ms h; cases h)]; exact rfl
+    | tru => rw [parse_succ_nonobj o n _ (by intro ms h; cases h), parse_succ_nonobj o' n _ (by intro ms h; cases h)]; exact rfl
+    | fls => rw [parse_succ_nonobj o n _ (by intro ms h; cases h), parse_succ_nonobj o' n _ (by intro ms h; cases h)]; exact rfl
+    | num => rw [parse_succ_nonobj o n _ (by intro ms h; cases h), parse_succ_nonobj o' n _ (by intro ms h; cases h)]; exact rfl
+    | str => rw [parse_succ_nonobj o n _ (by intro ms h; cases h), parse_succ_nonobj o' n _ (by intro ms h; cases h)]; exact rfl
+    | arr => rw [parse_succ_nonobj o n _ (by intro ms h; cases h), parse_succ_nonobj o' n _ (by intro ms h; cases h)]; exact rfl
+
+/-- index options never change acceptance … -/
+theorem index_opts_accept_same (o o' : POpts) (h : SameButIndex o o') (n : Nat) (v : JVal) :
+    (∃ x, parse o n v = .ok x) ↔ (∃ x', parse o' n v = .ok x') := by
+  have := index_opts_resEq h n v
+  cases h1 : parse o n v with
+  | error e =>
+    cases h2 : parse o' n v with
+    | error e' => constructor <;> (rintro ⟨x, hx⟩; cases hx)
+    | ok b' => rw [h1, h2] at this; exact this.elim
+  | ok b =>
+    cases h2 : parse o' n v with
+    | error e' => rw [h1, h2] at this; exact this.elim
+    | ok b' => exact ⟨fun _ => ⟨_, rfl⟩, fun _ => ⟨_, rfl⟩⟩
+
+/-- … nor the error -/
+theorem index_opts_error_same (o o' : POpts) (h : SameButIndex o o') (n : Nat) (v : JVal) (e : PErr) :
+    parse o n v = .error e ↔ parse o' n v = .error e := by
+  have := index_opts_resEq h n v
+  cases h1 : parse o n v with
+  | error e1 =>
+    cases h2 : parse o' n v with
+    | error e2 =>
+      rw [h1, h2] at this
+      have : e1 = e2 := this
+      subst this
+      exact Iff.rfl
+    | ok b' => rw [h1, h2] at this; exact this.elim
+  | ok b =>
+    cases h2 : parse o' n v with
+    | error e' => rw [h1, h2] at this; exact this.elim
+    | ok b' => constructor <;> (intro hx; cases hx)
+
+/-- … and the objects are equal up to index bytes -/
+theorem index_opts_obsEq (o o' : POpts) (h : SameButIndex o o') (n : Nat) (v : JVal) (x x' : Obj)
+    (hx : parse o n v = .ok x) (hx' : parse o' n v = .ok x') : ObsEq x x' := by
+  have := index_opts_resEq h n v
+  rw [hx, hx'] at this
+  exact this
+
+end Geo
+
+namespace Geo
+
+/-! ### representation options change only the constructor -/
+
+/-- same written text, same Circle centre -/
+def WEq (x x' : Obj) : Prop := write x = write x' ∧ centreOf x = centreOf x'
+
+theorem Forall2.zip {α β γ : Type} {P : α → β → Prop} {Q : α → γ → Prop} {R : β → γ → Prop}
+    {l : List α} {ys : List β} {zs : List γ} (hp : Forall2 P l ys) (hq : Forall2 Q l zs)
+    (h : ∀ x y z, x ∈ l → P x y → Q x z → R y z) : Forall2 R ys zs := by
+  induction hp generalizing zs with
+  | nil => cases hq; exact .nil
+  | cons hr _ ih =>
+    cases hq with
+    | cons hr' hq' =>
+      exact .cons (h _ _ _ List.mem_cons_self hr hr')
+        (ih hq' (fun x y z hx => h x y z (List.mem_cons_of_mem _ hx)))
+
+theorem writeAll_congr {cs cs' : List Obj} (h : Forall2 (fun y y' => write y = write y') cs cs') :
+    writeAll cs = writeAll cs' := by
+  induction h with
+  | nil => rfl
+  | cons hr _ ih => simp only [writeAll, hr, ih]
+
+theorem mkColl_WEq {o o' : POpts} {kind : CollKind} (hk : kind = .geometryCollection ∨ kind = .featureCollection)
+    {cs cs' : List Obj} (ex : Option Extra) (h : Forall2 (fun y y' => write y = write y') cs cs') :
+    WEq (mkColl o kind cs ex) (mkColl o' kind cs' ex) := by
+  refine ⟨?_, rfl⟩
+  have := writeAll_congr h
+  rcases hk with rfl | rfl <;> simp only [mkColl, write, this]
+
+theorem featureObj_WEq {o o' : POpts} (hd : o.disableCircle = o'.disableCircle) (k : Keys) {b b' x x' : Obj}
+    (hb : WEq b b') (hx : featureObj o k b = .ok x) (hx' : featureObj o' k b' = .ok x') : WEq x x' := by
+  rw [featureObj_eq] at hx hx'
+  rw [← hb.2, ← circleDecision_congr hd] at hx'
+  have hfeat : WEq (.feature b (withMembers none k)) (.feature b' (withMembers none k)) :=
+    ⟨by simp only [write, hb.1], rfl⟩
+  cases hc : centreOf b with
+  | none =>
+    rw [hc] at hx hx'
+    cases hx; cases hx'; exact hfeat
+  | some c =>
+    cases hw : withMembers none k with
+    | none =>
+      rw [hc, hw] at hx hx'
+      cases hx; cases hx'; rw [hw] at hfeat; exact hfeat
+    | some e =>
+      cases hdec : circleDecision o k with
+      | none =>
+        rw [hc, hw, hdec] at hx hx'
+        cases hx; cases hx'; rw [hw] at hfeat; exact hfeat
+      | some d =>
+        cases d with
+        | error e => rw [hc, hw, hdec] at hx; cases hx
+        | ok r =>
+          rw [hc, hw, hdec] at hx hx'
+          cases hx; cases hx'; exact ⟨rfl, rfl⟩
+
+theorem pointCase_simple_WEq (o : POpts) (k : Keys) {x x' : Obj}
+    (hx : pointCase { o with allowSimplePoints := true } k = .ok x)
+    (hx' : pointCase { o with allowSimplePoints := false } k = .ok x') : WEq x x' := by
+  unfold pointCase at hx hx'
+  cases hc : k.coordinates with
+  | none => rw [hc] at hx; cases hx
+  | some rc =>
+    rw [hc] at hx hx'
+    simp only at hx hx'
+    cases ha : rc.isArray with
+    | false => rw [ha] at hx; cases hx
+    | true =>
+      rw [ha] at hx hx'
+      simp only [Bool.not_true, Bool.false_eq_true, if_false] at hx hx'
+      cases hp : parsePointCoords rc with
+      | error e => rw [hp] at hx; cases hx
+      | ok r =>
+        obtain ⟨pos, ex⟩ := r
+        rw [hp] at hx hx'
+        simp only [Bool.and_true, Bool.and_false, Bool.false_eq_true, if_false] at hx hx'
+        split at hx' <;> cases hx'
+        cases hi : (withMembers ex k).isNone with
+        | false =>
+          rw [hi] at hx
+          simp only [Bool.false_eq_true, if_false] at hx
+          split at hx <;> cases hx
+          exact ⟨rfl, rfl⟩
+        | true =>
+          rw [hi] at hx
+          simp only [if_true] at hx
+          split at hx <;> cases hx
+          rw [Option.isNone_iff_eq_none] at hi
+          rw [hi]
+          refine ⟨?_, rfl⟩
+          simp only [write, writeExtra, Bool.false_eq_true, if_false, String.append_empty]
+
+/-- the statement carried through the recursion -/
+theorem allowSimplePoints_WEq (o : POpts) : ∀ (n : Nat) (v : JVal) (x x' : Obj),
+    parse { o with allowSimplePoints := true } n v = .ok x →
+    parse { o with allowSimplePoints := false } n v = .ok x' → WEq x x'
+  | n, v, x, x', hx, hx' => by
+    obtain ⟨m, ms, rfl, rfl⟩ := parse_ok_isObj hx
+    obtain ⟨r, ty, hty, h1⟩ := parse_obj_ok hx
+    obtain ⟨r', ty', hty', h2⟩ := parse_obj_ok hx'
+    rw [hty] at hty'
+    cases hty'
+    have hL : ∀ items cs cs', parseList { o with allowSimplePoints := true } m items = .ok cs →
+        parseList { o with allowSimplePoints := false } m items = .ok cs' →
+        Forall2 (fun y y' => write y = write y') cs cs' := by
+      intro items cs cs' h1 h2
+      exact (parseList_ok _ m items cs h1).zip (parseList_ok _ m items cs' h2)
+        (fun a y z _ hy hz => (allowSimplePoints_WEq o m a y z hy hz).1)
+    revert h1 h2
+    refine parseTyped_elim₂ (motive := fun _ a b => a = .ok x → b = .ok x' → WEq x x') _ _ _ _ _ _ _ ty
+      ?_ ?_ ?_ ?_ ?_ ?_ ?_ ?_ ?_ ?_
+    · exact pointCase_simple_WEq o _
+    · intro h1 h2
+      have : lineCase { o with allowSimplePoints := true } (scanKeys ms) =
+          lineCase { o with allowSimplePoints := false } (scanKeys ms) := rfl
+      rw [this, h2] at h1; cases h1; exact ⟨rfl, rfl⟩
+    · intro h1 h2
+      have : polyCase { o with allowSimplePoints := true } (scanKeys ms) =
+          polyCase { o with allowSimplePoints := false } (scanKeys ms) := rfl
+      rw [this, h2] at h1; cases h1; exact ⟨rfl, rfl⟩
+    · intro h1 h2
+      have : multiPointCase { o with allowSimplePoints := true } (scanKeys ms) =
+          multiPointCase { o with allowSimplePoints := false } (scanKeys ms) := rfl
+      rw [this, h2] at h1; cases h1; exact ⟨rfl, rfl⟩
+    · intro h1 h2
+      have : multiLineCase { o with allowSimplePoints := true } (scanKeys ms) =
+          multiLineCase { o with allowSimplePoints := false } (scanKeys ms) := rfl
+      rw [this, h2] at h1; cases h1; exact ⟨rfl, rfl⟩
+    · intro h1 h2
+      have : multiPolyCase { o with allowSimplePoints := true } (scanKeys ms) =
+          multiPolyCase { o with allowSimplePoints := false } (scanKeys ms) := rfl
+      rw [this, h2] at h1; cases h1; exact ⟨rfl, rfl⟩
+    · intro h1 h2
+      obtain ⟨items, cs, hg, hcs, rfl⟩ := geomCollCase_ok h1
+      obtain ⟨items', cs', hg', hcs', rfl⟩ := geomCollCase_ok h2
+      rw [hg] at hg'; cases hg'
+      exact mkColl_WEq (.inl rfl) _ (hL items cs cs' hcs hcs')
+    · intro h1 h2
+      obtain ⟨items, cs, hg, hcs, rfl⟩ := featCollCase_ok h1
+      obtain ⟨items', cs', hg', hcs', rfl⟩ := featCollCase_ok h2
+      rw [hg] at hg'; cases hg'
+      exact mkColl_WEq (.inr rfl) _ (hL items cs cs' hcs hcs')
+    · intro h1 h2
+      obtain ⟨g, b, hg, hb, hf⟩ := featureCase_ok h1
+      obtain ⟨g', b', hg', hb', hf'⟩ := featureCase_ok h2
+      rw [hg] at hg'; cases hg'
+      exact featureObj_WEq rfl _ (allowSimplePoints_WEq o m g b b' hb hb') hf hf'
+    · intro _ h; cases h
+termination_by n => n
+
+/-- AllowSimplePoints changes only the constructor: the written text is the same -/
+theorem allowSimplePoints_write (o : POpts) (n : Nat) (v : JVal) (x x' : Obj)
+    (hx : parse { o with allowSimplePoints := true } n v = .ok x)
+    (hx' : parse { o with allowSimplePoints := false } n v = .ok x') : write x = write x' :=
+  (allowSimplePoints_WEq o n v x x' hx hx').1
+
+end Geo
+
+namespace Geo
+
+/-! ### require-valid is a filter -/
+
+mutual
+/-- the object and every nested object is valid: children of collections, base of features;
+    a Circle: its centre is finite and in range -/
+def validDeep : Obj → Bool
+  | .point pos ex => (Obj.point pos ex).valid
+  | .spoint pos => (Obj.spoint pos).valid
+  | .lineString l ps ex => (Obj.lineString l ps ex).valid
+  | .polygon p rings ex => (Obj.polygon p rings ex).valid
+  | .rectO b lo hi => (Obj.rectO b lo hi).valid
+  | .coll _ cs _ _ => allValidDeep cs
+  | .feature b _ => validDeep b
+  | .circle c _ => c.fin && c.p.valid
+def allValidDeep : List Obj → Bool
+  | [] => true
+  | c :: cs => validDeep c && allValidDeep cs
+end
+
+theorem validDeep_leaf {x : Obj} (h : isGeomLeaf x = true) : validDeep x = x.valid := by
+  cases x <;> first | rfl | cases h
+
+theorem allValid_eq_all : ∀ (cs : List Obj), Obj.allValid cs = cs.all Obj.valid
+  | [] => rfl
+  | c :: cs => by simp only [Obj.allValid, List.all_cons, allValid_eq_all cs]
+
+theorem allValidDeep_leaf : ∀ (cs : List Obj), cs.all isGeomLeaf = true → allValidDeep cs = cs.all Obj.valid
+  | [], _ => rfl
+  | c :: cs, h => by
+    simp only [List.all_cons, Bool.and_eq_true] at h
+    simp only [allValidDeep, List.all_cons, validDeep_leaf h.1, allValidDeep_leaf cs h.2]
+
+/-- `r'` is `r` filtered by `validDeep` -/
+def Filtered (r r' : Except PErr Obj) : Prop :=
+  match r with
+  | .ok x => if validDeep x = true then r' = .ok x else ∃ e, r' = .error e
+  | .error _ => ∃ e, r' = .error e
+
+theorem filtered_check' (ob : Obj) (e : PErr) (b : Bool) (h : validDeep ob = b) :
+    Filtered (.ok ob) (if (true && !b) = true then .error e else .ok ob) := by
+  unfold Filtered
+  simp only [h, Bool.true_and]
+  cases b with
+  | true => simp
+  | false => simp
+
+theorem filtered_check (ob : Obj) (e : PErr) (h : validDeep ob = ob.valid) :
+    Filtered (.ok ob) (if (true && !ob.valid) = true then .error e else .ok ob) :=
+  filtered_check' ob e _ h
+
+theorem pointCase_filter (o : POpts) (ho : o.requireValid = false) (k : Keys) :
+    Filtered (pointCase o k) (pointCase { o with requireValid := true } k) := by
+  unfold pointCase
+  cases hc : k.coordinates with
+  | none => exact ⟨_, rfl⟩
+  | some rc =>
+    simp only
+    cases ha : rc.isArray with
+    | false => exact ⟨_, rfl⟩
+    | true =>
+      simp only [Bool.not_true, Bool.false_eq_true, if_false]
+      cases hp : parsePointCoords rc with
+      | error e => exact ⟨_, rfl⟩
+      | ok r =>
+        obtain ⟨pos, ex⟩ := r
+        simp only [ho, Bool.false_and, Bool.false_eq_true, if_false]
+        apply filtered_check
+        split <;> rfl
+
+theorem lineCase_filter (o : POpts) (ho : o.requireValid = false) (k : Keys) :
+    Filtered (lineCase o k) (lineCase { o with requireValid := true } k) := by
+  unfold lineCase
+  cases hr : reqArray k.coordinates .coordsMissing .coordsInvalid with
+  | error e => exact ⟨_, rfl⟩
+  | ok rc =>
+    simp only
+    cases hp : parseLineCoords rc with
+    | error e => exact ⟨_, rfl⟩
+    | ok r =>
+      obtain ⟨ps, ex⟩ := r
+      simp only
+      by_cases hl : ps.length < 2
+      · simp only [if_pos hl]; exact ⟨_, rfl⟩
+      · simp only [if_neg hl, ho, Bool.false_and, Bool.false_eq_true, if_false]
+        exact filtered_check _ _ rfl
+
+theorem polyObj_leaf (o : POpts) (rings : List (List Pos)) (ex : Option Extra) :
+    isGeomLeaf (polyObj o rings ex) = true := by
+  rcases polyObj_cases o rings ex with h | ⟨_, _, _, _, _, _, _, _, _, h⟩ <;> rw [h] <;> rfl
+
+theorem polyCase_filter (o : POpts) (ho : o.requireValid = false) (k : Keys) :
+    Filtered (polyCase o k) (polyCase { o with requireValid := true } k) := by
+  unfold polyCase
+  cases hr : reqArray k.coordinates .coordsMissing .coordsInvalid with
+  | error e => exact ⟨_, rfl⟩
+  | ok rc =>
+    simp only
+    cases hp : parsePolyCoords rc with
+    | error e => exact ⟨_, rfl⟩
+    | ok r =>
+      obtain ⟨rings, ex⟩ := r
+      simp only
+      by_cases hl : (rings.isEmpty || !(rings.all ringOK)) = true
+      · simp only [if_pos hl]; exact ⟨_, rfl⟩
+      · simp only [if_neg hl, ho, Bool.false_and, Bool.false_eq_true, if_false]
+        exact filtered_check (polyObj o rings (withMembers ex k)) _ (validDeep_leaf (polyObj_leaf _ _ _))
+
+theorem multiPointCase_filter (o : POpts) (ho : o.requireValid = false) (k : Keys) :
+    Filtered (multiPointCase o k) (multiPointCase { o with requireValid := true } k) := by
+  unfold multiPointCase
+  cases hr : reqArray k.coordinates .coordsMissing .coordsInvalid with
+  | error e => exact ⟨_, rfl⟩
+  | ok rc =>
+    simp only
+    cases hp : rc.elems.mapM (fun v => parsePointCoords v) with
+    | error e => exact ⟨_, rfl⟩
+    | ok cs =>
+      simp only [ho, Bool.false_and, Bool.false_eq_true, if_false]
+      refine filtered_check' (mkColl o .multiPoint (cs.map (fun c => Obj.point c.1 c.2)) (withMembers none k)) _ _ ?_
+      simp only [mkColl, validDeep]
+      apply allValidDeep_leaf
+      simp [isGeomLeaf]
+
+theorem multiLineCase_filter (o : POpts) (ho : o.requireValid = false) (k : Keys) :
+    Filtered (multiLineCase o k) (multiLineCase { o with requireValid := true } k) := by
+  unfold multiLineCase
+  cases hr : reqArray k.coordinates .coordsMissing .coordsInvalid with
+  | error e => exact ⟨_, rfl⟩
+  | ok rc =>
+    simp only
+    have : lineChild { o with requireValid := true } = lineChild o := rfl
+    rw [this]
+    cases hp : rc.elems.mapM (lineChild o) with
+    | error e => exact ⟨_, rfl⟩
+    | ok cs =>
+      simp only [ho, Bool.false_and, Bool.false_eq_true, if_false]
+      refine filtered_check (mkColl o .multiLineString cs (withMembers none k)) _ ?_
+      have hleaf : cs.all isGeomLeaf = true := by
+        rw [List.all_eq_true]
+        exact (mapM_except_ok _ _ _ hp).right (fun x y _ hxy => lineChild_leaf hxy)
+      simp only [mkColl, validDeep, Obj.valid, allValidDeep_leaf cs hleaf, allValid_eq_all]
+
+theorem multiPolyCase_filter (o : POpts) (ho : o.requireValid = false) (k : Keys) :
+    Filtered (multiPolyCase o k) (multiPolyCase { o with requireValid := true } k) := by
+  unfold multiPolyCase
+  cases hr : reqArray k.coordinates .coordsMissing .coordsInvalid with
+  | error e => exact ⟨_, rfl⟩
+  | ok rc =>
+    simp only
+    have : polyChild { o with requireValid := true } = polyChild o := rfl
+    rw [this]
+    cases hp : rc.elems.mapM (polyChild o) with
+    | error e => exact ⟨_, rfl⟩
+    | ok cs =>
+      simp only [ho, Bool.false_and, Bool.false_eq_true, if_false]
+      refine filtered_check (mkColl o .multiPolygon cs (withMembers none k)) _ ?_
+      have hleaf : cs.all isGeomLeaf = true := by
+        rw [List.all_eq_true]
+        exact (mapM_except_ok _ _ _ hp).right (fun x y _ hxy => polyChild_leaf hxy)
+      simp only [mkColl, validDeep, Obj.valid, allValidDeep_leaf cs hleaf, allValid_eq_all]
+
+def FilteredL (r r' : Except PErr (List Obj)) : Prop :=
+  match r with
+  | .ok xs => if allValidDeep xs = true then r' = .ok xs else ∃ e, r' = .error e
+  | .error _ => ∃ e, r' = .error e
+
+theorem parseList_filter (o o' : POpts) (n : Nat) : ∀ (items : List JVal),
+    (∀ x ∈ items, Filtered (parse o n x) (parse o' n x)) →
+      FilteredL (parseList o n items) (parseList o' n items)
+  | [], _ => by
+    rw [parseList_nil, parseList_nil]
+    simp [FilteredL, allValidDeep]
+  | x :: xs, h => by
+    have hx := h x List.mem_cons_self
+    have hxs := parseList_filter o o' n xs (fun z hz => h z (List.mem_cons_of_mem _ hz))
+    rw [parseList_cons, parseList_cons]
+    cases h1 : parse o n x with
+    | error e =>
+      rw [h1] at hx
+      obtain ⟨e', he'⟩ := hx
+      rw [he']
+      exact ⟨_, rfl⟩
+    | ok y =>
+      rw [h1] at hx
+      simp only [Filtered] at hx
+      cases hv : validDeep y with
+      | false =>
+        rw [hv] at hx
+        simp only [Bool.false_eq_true, if_false] at hx
+        obtain ⟨e', he'⟩ := hx
+        rw [he']
+        cases parseList o n xs with
+        | error e => exact ⟨_, rfl⟩
+        | ok ys => simp [FilteredL, allValidDeep, hv]
+      | true =>
+        rw [hv] at hx
+        simp only [if_true] at hx
+        rw [hx]
+        cases h2 : parseList o n xs with
+        | error e =>
+          rw [h2] at hxs
+          obtain ⟨e', he'⟩ := hxs
+          rw [he']
+          exact ⟨_, rfl⟩
+        | ok ys =>
+          rw [h2] at hxs
+          simp only [FilteredL] at hxs ⊢
+          simp only [allValidDeep, hv, Bool.true_and]
+          cases hvs : allValidDeep ys with
+          | false =>
+            rw [hvs] at hxs
+            simp only [Bool.false_eq_true, if_false] at hxs ⊢
+            obtain ⟨e', he'⟩ := hxs
+            rw [he']
+            exact ⟨_, rfl⟩
+          | true =>
+            rw [hvs] at hxs
+            simp only [if_true] at hxs ⊢
+            rw [hxs]
+
+theorem collCase_filter (o o' : POpts) (hi : o'.indexChildren = o.indexChildren) (kind : CollKind) (ex : Option Extra) (a b : PErr)
+    (v : Option JVal) {pl pl' : List JVal → Except PErr (List Obj)}
+    (hpl : ∀ items, FilteredL (pl items) (pl' items)) :
+    Filtered
+      (match reqArray v a b with
+        | .error e => .error e
+        | .ok (.arr items) =>
+          match pl items with
+          | .error e => .error e
+          | .ok children => .ok (mkColl o kind children ex)
+        | .ok _ => .error b)
+      (match reqArray v a b with
+        | .error e => .error e
+        | .ok (.arr items) =>
+          match pl' items with
+          | .error e => .error e
+          | .ok children => .ok (mkColl o' kind children ex)
+        | .ok _ => .error b) := by
+  split
+  · exact ⟨_, rfl⟩
+  · rename_i items _
+    have := hpl items
+    cases h1 : pl items with
+    | error e =>
+      rw [h1] at this
+      obtain ⟨e', he'⟩ := this
+      rw [he']
+      exact ⟨_, rfl⟩
+    | ok cs =>
+      rw [h1] at this
+      simp only [FilteredL] at this
+      simp only [Filtered, mkColl, validDeep]
+      cases hv : allValidDeep cs with
+      | false =>
+        rw [hv] at this
+        simp only [Bool.false_eq_true, if_false] at this ⊢
+        obtain ⟨e', he'⟩ := this
+        rw [he']
+        exact ⟨_, rfl⟩
+      | true =>
+        rw [hv] at this
+        simp only [if_true] at this ⊢
+        rw [this, hi]
+  · exact ⟨_, rfl⟩
+
+theorem centreOf_validDeep {b : Obj} {c : Pos} (h : centreOf b = some c) :
+    validDeep b = (c.fin && c.p.valid) := by
+  cases b with
+  | point p e => simp only [centreOf, Option.some.injEq] at h; subst h; simp only [validDeep, Obj.valid]
+  | spoint p => simp only [centreOf, Option.some.injEq] at h; subst h; simp only [validDeep, Obj.valid]
+  | _ => cases h
+
+theorem featureObj_validDeep {o : POpts} {k : Keys} {b x : Obj} (h : featureObj o k b = .ok x) :
+    validDeep x = validDeep b := by
+  rw [featureObj_eq] at h
+  split at h
+  · rename_i c _ r hc _ _
+    cases h
+    rw [centreOf_validDeep hc]
+    rfl
+  · cases h
+  · cases h; rfl
+
+theorem featureCase_filter (o : POpts) (k : Keys) {pr pr' : JVal → Except PErr Obj}
+    (hpr : ∀ g, Filtered (pr g) (pr' g)) :
+    Filtered (featureCase o k pr) (featureCase { o with requireValid := true } k pr') := by
+  unfold featureCase
+  cases hg : k.geometry with
+  | none => exact ⟨_, rfl⟩
+  | some g =>
+    simp only
+    have := hpr g
+    have hfo : ∀ b, featureObj { o with requireValid := true } k b = featureObj o k b := fun _ => rfl
+    cases h1 : pr g with
+    | error e =>
+      rw [h1] at this
+      obtain ⟨e', he'⟩ := this
+      rw [he']
+      exact ⟨_, rfl⟩
+    | ok base =>
+      rw [h1] at this
+      simp only [Filtered] at this
+      simp only
+      cases hv : validDeep base with
+      | false =>
+        rw [hv] at this
+        simp only [Bool.false_eq_true, if_false] at this
+        obtain ⟨e', he'⟩ := this
+        rw [he']
+        cases hf : featureObj o k base with
+        | error e => exact ⟨_, rfl⟩
+        | ok x =>
+          simp only [Filtered, featureObj_validDeep hf, hv, Bool.false_eq_true, if_false]
+          exact ⟨_, rfl⟩
+      | true =>
+        rw [hv] at this
+        simp only [if_true] at this
+        rw [this]
+        simp only [hfo]
+        cases hf : featureObj o k base with
+        | error e => exact ⟨_, rfl⟩
+        | ok x =>
+          simp only [Filtered, featureObj_validDeep hf, hv, if_true]
+
+/-- the filter statement for every fuel -/
+theorem requireValid_filtered (o : POpts) (ho : o.requireValid = false) :
+    ∀ (n : Nat) (v : JVal), Filtered (parse o n v) (parse { o with requireValid := true } n v)
+  | 0, v => by rw [parse_zero, parse_zero]; exact ⟨_, rfl⟩
+  | n+1, v => by
+    cases v with
+    | obj ms =>
+      rw [parse_succ_obj, parse_succ_obj]
+      have hL : ∀ items, FilteredL (parseList o n items) (parseList { o with requireValid := true } n items) :=
+        fun items => parseList_filter _ _ n items (fun x _ => requireValid_filtered o ho n x)
+      cases hty : (scanKeys ms).type with
+      | none => exact ⟨_, rfl⟩
+      | some t =>
+        cases t with
+        | str r ty =>
+          simp only
+          refine parseTyped_elim₂ (motive := fun _ a b => Filtered a b) _ _ _ _ _ _ _ ty
+            ?_ ?_ ?_ ?_ ?_ ?_ ?_ ?_ ?_ ?_
+          · exact pointCase_filter o ho _
+          · exact lineCase_filter o ho _
+          · exact polyCase_filter o ho _
+          · exact multiPointCase_filter o ho _
+          · exact multiLineCase_filter o ho _
+          · exact multiPolyCase_filter o ho _
+          · exact collCase_filter _ _ rfl _ _ _ _ _ hL
+          · exact collCase_filter _ _ rfl _ _ _ _ _ hL
+          · exact featureCase_filter o _ (fun g => requireValid_filtered o ho n g)
+          · intro _; exact ⟨_, rfl⟩
+        | null => exact ⟨_, rfl⟩
+        | tru => exact ⟨_, rfl⟩
+        | fls => exact ⟨_, rfl⟩
+        | num => exact ⟨_, rfl⟩
+        | arr => exact ⟨_, rfl⟩
+        | obj => exact ⟨_, rfl⟩
+    | null => rw [parse_succ_nonobj _ n _ (by intro ms h; cases h), parse_succ_nonobj _ n _ (by intro ms h; cases h)]; exact ⟨_, rfl⟩
+    | tru => rw [parse_succ_nonobj _ n _ (by intro ms h; cases h), parse_succ_nonobj _ n _ (by intro ms h; cases h)]; exact ⟨_, rfl⟩
+    | fls => rw [parse_succ_nonobj _ n _ (by intro ms h; cases h), parse_succ_nonobj _ n _ (by intro ms h; cases h)]; exact ⟨_, rfl⟩
+    | num => rw [parse_succ_nonobj _ n _ (by intro ms h; cases h), parse_succ_nonobj _ n _ (by intro ms h; cases h)]; exact ⟨_, rfl⟩
+    | str => rw [parse_succ_nonobj _ n _ (by intro ms h; cases h), parse_succ_nonobj _ n _ (by intro ms h; cases h)]; exact ⟨_, rfl⟩
+    | arr => rw [parse_succ_nonobj _ n _ (by intro ms h; cases h), parse_succ_nonobj _ n _ (by intro ms h; cases h)]; exact ⟨_, rfl⟩
+
+/-- RequireValid is a filter: with it, Parse returns the same object when that object is
+    valid in depth, and an error otherwise (also when it was an error before; the error may
+    differ, because an invalid child is reported before a later malformed one). -/
+theorem requireValid_filter (o : POpts) (ho : o.requireValid = false) (n : Nat) (v : JVal) :
+    match parse o n v with
+    | .ok x =>
+      if validDeep x = true then parse { o with requireValid := true } n v = .ok x
+      else ∃ e, parse { o with requireValid := true } n v = .error e
+    | .error _ => ∃ e, parse { o with requireValid := true } n v = .error e :=
+  requireValid_filtered o ho n v
+
+end Geo
+
+#print axioms Geo.index_opts_accept_same
+#print axioms Geo.index_opts_error_same
+#print axioms Geo.index_opts_obsEq
+#print axioms Geo.obsEq_write
+#print axioms Geo.obsEq_attrs
+#print axioms Geo.allowSimplePoints_write
+#print axioms Geo.requireValid_filter
